@@ -231,7 +231,9 @@ func (r *rewriter) post(c *astutil.Cursor) bool {
 			}
 		}
 	case *ast.SendStmt:
-		c.Replace(&ast.ExprStmt{X: call(rt("Send"), r.site(n, "send"), n.Chan, n.Value)})
+		// SendTo(site, ch)(v): the element type comes from the channel alone, and v is converted to it as in `ch <- v`
+		// (a concrete error value sent on a `chan error` would not unify in a single generic call)
+		c.Replace(&ast.ExprStmt{X: call(call(rt("SendTo"), r.site(n, "send"), n.Chan), n.Value)})
 	case *ast.SelectStmt:
 		c.Replace(r.rewriteSelect(n))
 	case *ast.GoStmt:
